@@ -66,6 +66,10 @@ def generate(seed, tier, index):
         'suppress': False,
         'synth': True,
     }
+    if rng.random() < 0.15:
+        # a log that starts late: the first lines of the stream are missing (objects unknown, delete_id of unknown ids...);
+        # names, notices, roles and message counts must still be per tag
+        cfg['headcut'] = rng.randint(1, max(1, min(12, total // 2)))
     return {'prop': ID, 'seed': seed, 'config': cfg, 'intents': intents}
 
 
@@ -165,6 +169,12 @@ def execute(sc):
         return execute_exhaustive(sc)
     V = common.Viol()
     st = L.build_stream(sc, rig.REPO)
+    headcut = sc['config'].get('headcut')
+    if headcut:
+        st.lines = st.lines[headcut:]
+        st.steps = [x for x in st.steps if x[0] != 'line'][:0] + [('line', t, it) for t, it in st.lines]
+        st.data = ('\n'.join(t for t, _ in st.lines) + ('\n' if st.lines else '')).encode('utf-8')
+        V.bump('fault_log_starts_late')
     res, tr = common.observe_file(sc, st, script=('connection', 'quit'))
     names = oracles.conn_names(st)
     inter = ''.join(chr(65 + it.conn % 26) for _, it in st.lines if isinstance(it, W.Closure))
@@ -195,6 +205,8 @@ def execute(sc):
                 opened[o.notice[2]] = o
                 first_seen.append(o.notice[2])
             elif o.kind == 'msg':
+                if o.conn == '' and o.unresolved:
+                    continue      # an unresolvable target carries no connection name on its line
                 if o.conn not in opened:
                     V.add('C04/open-notice', 'missing', 'message line %r before any New notice for %s' % (o.text, o.conn))
         want_names = [names[c] for c in sorted(names, key=lambda c: W.unletters(names[c]))]
@@ -217,7 +229,7 @@ def execute(sc):
             V.add('C04/close-notice', 'early', 'a Closed notice precedes the last input line')
         # role: absolute when first message is get_registry
         for wc, nm in names.items():
-            msgs = st.world.conns[wc].msgs
+            msgs = [it for _, it in st.lines if isinstance(it, W.Closure) and it.conn == wc]     # as delivered
             if msgs and msgs[0].name == 'get_registry':
                 side = st.world.conns[wc].side
                 want_role = 'client' if side == 'client' else 'server'
@@ -232,9 +244,19 @@ def execute(sc):
         listing = [CONN_LINE_RE.match(p) for s, k, p in res.rec.events if k == 'out' and s > prompt_seq]
         listing = [m for m in listing if m]
         got = [(m.group(2), m.group(4), int(m.group(5))) for m in listing]
-        want = [(names[c], 'closed', len(st.world.conns[c].msgs)) for c in sorted(names, key=lambda c: W.unletters(names[c]))]
+        per_conn_lines = {}
+        for _, it in st.lines:
+            if isinstance(it, W.Closure):
+                per_conn_lines[it.conn] = per_conn_lines.get(it.conn, 0) + 1
+        want = [(names[c], 'closed', per_conn_lines.get(c, 0)) for c in sorted(names, key=lambda c: W.unletters(names[c]))]
         if got != want:
             V.add('C04/listing', 'connection-command', '`connection` lists %r, expected %r' % (got[:8], want[:8]))
+        if headcut:
+            # attribution and projection need the whole history: not judged for a log that starts late
+            return {'violations': V.list, 'counters': V.counters, 'nt_keys': [inter[:200] + 'cut%d' % headcut], 'inter_key': inter,
+                    'states': [], 'digest': res.rec.digest(), 'canon': res.rec.digest(canonical=True),
+                    'sim_us': st.world.now - st.world.epoch_us, 'evals': 1,
+                    'sample': {'config': sc['config'], 'interleaving': inter[:80]}}
         # (3) per-connection C02/C03 oracles
         A = common.Viol()
         py2inc = oracles.check_attribution(st, tr, A, names=names, check_tokens_items=items)
